@@ -115,6 +115,7 @@ func Load(repo string, bc BuildConfig) (*Ctx, error) {
 			c.NFuncs++
 		}
 	}
+	computeImmutableFields(c)
 	c.LoadDur = time.Since(t0)
 	return c, nil
 }
